@@ -801,8 +801,10 @@ func (e *escaper) escapeTemplateBody(c, out context, t *template.Template) (cont
 			// accurate output context.
 			return true
 		}
-		// c1 is accurate if it matches our assumed output context.
-		return out.eq(c1)
+		// c1 is accurate if it matches our assumed output context, also in whether the
+		// static text of the attribute value is known: an action after a recursive call
+		// is escaped for the assumed context.
+		return out.eq(c1) && out.attr.ambiguousValue == c1.attr.ambiguousValue
 	}
 	// We need to assume an output context so that recursive template calls
 	// take the fast path out of escapeTree instead of infinitely recursing.
